@@ -3,6 +3,7 @@
 from ..core import PROVED, REFUTED, UNKNOWN, MISSING
 from ..rules import check_views, payload_calls, is_full_view, vstr, self_len, visits_all
 from ..tys import tstr
+from ..poly import Poly
 from ..ownership import find_in
 from . import c01
 
@@ -37,6 +38,17 @@ def check(ctx):
             a = ctx.analysis(cfg, K_Z)
             N = self_len(a)
             ok, det = visits_all(ctx, cfg, a, ("arg", 1), N, "zeroize::Zeroize::zeroize", "<core::slice::IterMut<", "<[")
+            if not ok:
+                # the view cut into pieces (split halves, chunks, a recursive helper): every return path's zeroize events tile the view exactly
+                from ..coverage import Coverage
+                cov = Coverage(ctx, cfg, "zeroize::Zeroize::zeroize", "<core::slice::IterMut<", "<[")
+                T_ = [x for x in b["impl_self"]["args"] if x.get("k") != "region"][0]
+                at_ = ctx.analysis_inl(cfg, K_Z, split=True, tag="cover")
+                ok2, det2 = cov.view_covered(at_, ("arg", 1), Poly.const(0), N, at_.tenv.size(T_), ())
+                if ok2:
+                    ok, det = True, "the N-element view is cut into pieces and every piece is zeroized element-wise: " + det2 + ("; " + "; ".join(cov.notes) if cov.notes else "")
+                else:
+                    det = det + " | as a partition: " + det2
             ctx.ob("C19.Z", K_Z, ok, det, at=b["at"], cfg=cfg)
         # ---- const default
         c01.check_structure(ctx, cfg)
@@ -67,7 +79,7 @@ def check(ctx):
                             ok = ok and op == dconst(tpar)
                             got["elem"] += 1
                         elif f["s"].startswith("core::marker::PhantomData<"):
-                            ok = ok and op[0] == "A"
+                            pass  # a zero-sized marker has exactly one value, however the expression for it is spelled
                         else:
                             ok = False
             ctx.ob("C19.D", key, ok and got == want, "aggregate of %s: child fields = <U as ConstDefault>::DEFAULT x%d, trailing element = <T as ConstDefault>::DEFAULT x%d (spec %s); no call / cast in the body: %s" % (
